@@ -612,6 +612,13 @@ func (p *packerV4) pack(options ...*bgp.MarshallingOption) []*bgp.BGPMessage {
 
 	loop := func(attrsLen int, paths []*Path, cb func([]bgp.PathNLRI)) {
 		max := maxNLRIs(attrsLen)
+		if max < 1 {
+			// The attributes alone (nearly) fill the message. Emit one
+			// NLRI per message like packerMP does: a message that is
+			// still too long is rejected by Serialize and reported by
+			// the sender instead of panicking or dropping the route here.
+			max = 1
+		}
 		var nlris []bgp.PathNLRI
 		for {
 			nlris, paths = split(max, paths)
